@@ -5,6 +5,7 @@ Real PSyclone (colouring / OpenMP / OpenACC transformations on LFRic invokes) ag
 after every accepted step and generation is attempted at the end."""
 import json
 import os
+import time
 
 import common
 from common import driver, sx, parse_sx
@@ -310,7 +311,9 @@ def run(chk):
                                "translator harness/props/c23_tables.py (probe objects passed to PSyLoop.has_inc_arg)",
                                "abstraction of the real schedule and Safe evaluation in harness/props/c23_lfric.py",
                                "fparser2 / LFRic metadata parser"]
+    t0 = time.time()
     proof_ok = chk.lean(gen=c23_tables.gen)
+    t_lean = time.time() - t0
     L.setup_api()
     rng = chk.rng
     thorough = chk.tier == "thorough"
@@ -369,6 +372,7 @@ def run(chk):
                 found = minimise(wd, payload)
                 break
     chk.cov["distribution"] = dist
+    chk.cov["phase_s"] = {"lean_build_and_audit_incl_lock_wait": round(t_lean, 1), "cases": round(time.time() - t0 - t_lean, 1)}
     chk.cov["invokes"] = len(FIXED_INVOKES) + n_invokes
     if found:
         chk.violation(found)
